@@ -138,6 +138,20 @@ def _with_value_helpers_inlined(ix, fi):
     return _sh._set_parents(fn)
 
 
+def _precedes(st, node) -> bool:
+    """statement `st` is an earlier sibling of (a statement containing) `node`, at this or an enclosing block level"""
+    cur = node
+    while cur is not None:
+        loc = _sh._block_and_index(cur)
+        if loc is None:
+            return False
+        par, lst, idx = loc
+        if any(x is st for x in lst[:idx]):
+            return True
+        cur = par
+    return False
+
+
 def _named_entry(e, table: str, key: str) -> bool:
     """`e` is the entry of `table` under `key`: `table[key]` or `table.get(key[, default])`"""
     return _sh.match(f"{table}[{key}]", e) is not None or _sh.match(f"{table}.get({key}, *_R)", e) is not None
@@ -256,7 +270,10 @@ def run(ck, ix, tier):
     cs = [c for c in walk_local(fi.node) if isinstance(c, ast.Call) and call_name(c) == "_get_base_units"]
     ck.floor("G-PROV", len(cs), 1, "_get_base_units call in get_base_units")
     for c in cs:
-        ck.check([norm(a) for a in c.args] == ["input_units", "check_nonmult", "system"], "G-PROV", "get_base_units|arguments-forwarded", fi.loc(c),
+        # (the units may be passed as given or converted to a container on the way, through a temporary or not)
+        first = _sh.unalias(c.args[0], fi.node) if c.args else None
+        units_ok = first is not None and (norm(first) == "input_units" or _sh.match("to_units_container(input_units, *_R)", first) is not None)
+        ck.check(units_ok and [norm(a) for a in c.args[1:]] == ["check_nonmult", "system"], "G-PROV", "get_base_units|arguments-forwarded", fi.loc(c),
                  "arguments forwarded", f"`{norm(c)}` does not forward (input_units, check_nonmult, system)")
 
     # ------------------------------------------------------------ to/ito_base_units: same target, same registry function
@@ -372,7 +389,20 @@ def run(ck, ix, tier):
     def popped_exponent(e):
         """e is the exponent of the single (unit, exponent) item of the root expansion of new (bare rule)"""
         x = _sh.unalias(e, fn)
-        return isinstance(x, ast.Subscript) and "popitem()" in norm(x.value) and norm(x.slice) == "1" and expansion_of_new in _sh.rnorm(x.value, fn, 4)
+        if isinstance(x, ast.Subscript) and "popitem()" in norm(x.value) and norm(x.slice) == "1" and expansion_of_new in _sh.rnorm(x.value, fn, 4):
+            return True
+        # ... or the second name of a (unit, exponent) pair unpacked from the items of that expansion by an earlier
+        # statement: `u, e = d.popitem()`, `((u, e),) = d.items()`, `[(u, e)] = ...`
+        if not isinstance(e, ast.Name):
+            return False
+        for st in ast.walk(fn):
+            if not (isinstance(st, ast.Assign) and len(st.targets) == 1 and _precedes(st, e)):
+                continue
+            pairs = [t for t in ast.walk(st.targets[0]) if isinstance(t, (ast.Tuple, ast.List)) and len(t.elts) == 2 and all(isinstance(n_, ast.Name) for n_ in t.elts)]
+            src = _sh.rnorm(st.value, fn, 4)
+            if any(t.elts[1].id == e.id for t in pairs) and expansion_of_new in src and ("popitem()" in src or ".items()" in src):
+                return True
+        return False
 
     def other_exponent(e):
         """e is the exponent variable of a loop/comprehension over <expansion of new>.items() with OLD excluded"""
